@@ -2,7 +2,7 @@
 from . import core
 
 CFG40V = 'CONSTANTS\n Mode = "views"\n Stripe = 1\n Phase = 0\nINIT Init\nNEXT Next\nINVARIANTS ViewInRange EmitView\nCHECK_DEADLOCK FALSE\n'
-CFG40C = 'CONSTANTS\n Mode = "classes"\n Stripe = 8\n Phase = %d\nINIT Init\nNEXT Next\nINVARIANTS ClassesOK\nCHECK_DEADLOCK FALSE\n'
+CFG40C = 'CONSTANTS\n Mode = "classes"\n Stripe = 12\n Phase = %d\nINIT Init\nNEXT Next\nINVARIANTS ClassesOK\nCHECK_DEADLOCK FALSE\n'
 CFG3X = 'INIT Init\nNEXT Next\nINVARIANTS InRange RoundupsAgree MissCap TempBelow Emit\nCHECK_DEADLOCK FALSE\n'
 CFG20 = 'INIT Init\nNEXT Next\nINVARIANTS InRange BaseNonNeg SetsSmall Emit\nCHECK_DEADLOCK FALSE\n'
 
